@@ -88,7 +88,7 @@ func c09Scen(seed int64, sc c09Scenario) vsync.Scenario {
 				w.rMember = w.R.md(w.gs[0]).Member()
 			}
 			var pre []byte
-			if sc.Side == "open-own" {
+			if sc.Side == "open-own" || sc.Side == "push-own" {
 				pre = w.S.seal(w.gs[0], []byte("pre"))
 				w.envs = append(w.envs, pre)
 				w.envGroup = append(w.envGroup, 0)
@@ -137,6 +137,15 @@ func c09Scen(seed int64, sc c09Scenario) vsync.Scenario {
 				vsync.GoNamed("A", func() {
 					b, err := w.S.st.GetShareableChainKey(context.Background(), w.gs[0], detKey(seed, "acct/B").GetPublic())
 					w.side = append(w.side, fmt.Sprintf("announce len=%d err=%v", len(b), err))
+				})
+			case "push-own":
+				vsync.GoNamed("O", func() {
+					// the device opens its own message from a push payload (a notification relayed back to it)
+					env, headers, err := w.S.st.OpenEnvelopeHeaders(pre, w.gs[0])
+					must(err)
+					oos := &protocoltypes.OutOfStoreMessage{Cid: cidOf(pre).Bytes(), DevicePk: headers.DevicePk, Counter: headers.Counter, Sig: headers.Sig, EncryptedPayload: env.Message, Nonce: env.Nonce}
+					_, _, oerr := w.S.st.OutOfStoreMessageOpen(context.Background(), oos, groupPK(w.gs[0]))
+					w.side = append(w.side, fmt.Sprintf("push-own ok=%v", oerr == nil))
 				})
 			case "open-own":
 				vsync.GoNamed("O", func() {
@@ -264,6 +273,7 @@ func TestVerifC09(t *testing.T) {
 	add(c09Scenario{Kind: "contact", Senders: 2, Msgs: 2, Groups: 2})
 	add(c09Scenario{Kind: "multimember", Senders: 2, Msgs: 1, Groups: 1, Side: "announce"})
 	add(c09Scenario{Kind: "multimember", Senders: 2, Msgs: 1, Groups: 1, Side: "open-own"})
+	add(c09Scenario{Kind: "multimember", Senders: 1, Msgs: 2, Groups: 1, Side: "push-own"})
 	add(c09Scenario{Kind: "multimember", Senders: 2, Msgs: 1, Groups: 1, Side: "first-use"})
 	add(c09Scenario{Kind: "contact", Senders: 2, Msgs: 1, Groups: 1, Side: "first-use"})
 	bound, budget := 2, 5*time.Minute
